@@ -1,4 +1,5 @@
 import EchoModel.Wire
+import EchoModel.C06Hooks
 /-!
 # C06 — response bookkeeping (response.go, context.go helpers)
 
@@ -473,6 +474,8 @@ def encReq (x : St × List Snap) : List String :=
 /-- line: `status0 cap canFlush strict nprog (nops op*)*` → `nprog` then per request
     `nsteps (committed status size ncalls sent body flushes warns ret err)* sentCt sentLoc sentDisp ntrace (code arg)*` -/
 def runLine (line : String) : String :=
+  -- programs with hooks that register hooks go to the small model of EchoModel/C06Hooks.lean
+  if line.startsWith "H " then C06H.runLine (line.drop 2).toString else
   match parseLine (do let p ← nat; let cap ← nat; let fl ← bool; let strict ← bool
                       let progs ← list (list pOp); pure (p, cap, fl, strict, progs)) line with
   | none => "bad-op"
